@@ -333,7 +333,10 @@ class ExecCtx:
             except ContinueSig:
                 pass
             except BreakSig:
-                raise OutOfSubset("break in an invariant-cut loop")
+                # leaving the loop early: execution continues after the loop with the current state; what is known is the
+                # invariant at the start of this iteration plus the effects of the partial body
+                self.loop_break_k = k
+                return
             self.emit_inv(ls, view, k + 1, tag + "/inv-preserved", 'loop-preserve')
             raise LoopIterEnd()
         else:
